@@ -79,6 +79,10 @@ func (jenny Schema) GenerateSchema(context languages.Context, schema *ast.Schema
 		definitions.Set(object.Name, jenny.objectToDefinition(object))
 	})
 
+	// foreign objects already turned into a definition: a foreign object that
+	// (transitively) refers to itself would otherwise be queued forever.
+	emittedForeignObjects := make(map[string]struct{})
+
 	for {
 		if jenny.foreignObjects.Len() == 0 {
 			break
@@ -87,7 +91,12 @@ func (jenny Schema) GenerateSchema(context languages.Context, schema *ast.Schema
 		foreignObjects := jenny.foreignObjects
 		jenny.foreignObjects = orderedmap.New[string, ast.Object]()
 
-		foreignObjects.Iterate(func(_ string, foreignObject ast.Object) {
+		foreignObjects.Iterate(func(ref string, foreignObject ast.Object) {
+			if _, alreadyEmitted := emittedForeignObjects[ref]; alreadyEmitted {
+				return
+			}
+			emittedForeignObjects[ref] = struct{}{}
+
 			definitions.Set(foreignObject.Name, jenny.objectToDefinition(foreignObject))
 		})
 	}
